@@ -541,7 +541,7 @@ Qed.
 Lemma prepare_slice_Good sl along st en :
   prepare_slice s sl along = Ok (st, en) -> PathNL along -> CL (sl_content sl) -> Good st /\ Good en.
 Proof.
-  intros H Hp Hc. unfold prepare_slice in H.
+  intros H Hp Hc. apply (prepare_slice_ok s) in H. unfold prepare_slice0 in H.
   destruct (rp_node along (rp_depth along - sl_open_start sl)) as [parent|] eqn:En; [|discriminate]. cbn [bind] in H.
   destruct (wrap_up along (rp_depth along - sl_open_start sl) (node_copy parent (sl_content sl))) as [w|] eqn:Ew; [|discriminate].
   cbn [bind] in H. destruct (fsize (node_content w) <? sl_open_end sl + (rp_depth along - sl_open_start sl)); [discriminate|].
